@@ -243,7 +243,10 @@ struct Ledger
   bool                 hook_new;                   // operator new hook active (window, std world)
   long                 max_request;                // largest n requested from the ledger allocator
 
-  enum { REDZONE = 32 };
+#ifndef SVMC_REDZONE
+#define SVMC_REDZONE 32
+#endif
+  enum { REDZONE = SVMC_REDZONE };
 
   Ledger () : serial (0), n_alloc (0), n_dealloc (0), total_alloc (0), total_dealloc (0),
               hook_new (false), max_request (0) { }
